@@ -114,6 +114,12 @@ def parseUTy (fmt : Fmt) : Nat → String → Option UTy
       ((splitTop inner 0 []).mapM fun p => parseUTy fmt f (String.ofList p)).map .union
     else if d.startsWith "idref:" then
       (parseIdTy d).map fun t => .ext (idrefPlug t.ctx t.bases (t.pm fmt) t.pmJson)
+    else if d.startsWith "lref(" && d.endsWith ")" then
+      -- leafref (require-instance false) to a leaf of the member type inside the parentheses
+      (parseMTy (String.ofList ((d.toList.drop 5).dropLast))).map fun m => .ext (lrefPlug m.plug)
+    else if d.startsWith "lrefr(" && d.endsWith ")" then
+      -- leafref (require-instance true) to a leaf-list of the member type inside the parentheses
+      (parseMTy (String.ofList ((d.toList.drop 6).dropLast))).map fun m => .ext (lrefrPlug m.plug)
     else (parseMTy d).map .mem
 
 /-! ### ops -/
@@ -144,7 +150,7 @@ def handleUnion (ms : List Plug) (op : String) (args : List String) : String :=
       match storeU ms Generated.LYD_HINT_DATA s1, storeU ms Generated.LYD_HINT_DATA s2 with
       | .error _, _ => "err Reject1"
       | .ok _, .error _ => "err Reject2"
-      | .ok a, .ok b => cmpFields (cmpEqU ms a b) (sortU ms a b) (canonU ms a == canonU ms b)
+      | .ok a, .ok b => cmpFields (cmpEqU ms a b) (sortUV ms a b) (canonU ms a == canonU ms b)
     | _, _ => "err BadArg"
   | "lybrt", [_, x] =>
     match Hex.dec x with
@@ -163,6 +169,22 @@ def handleUnion (ms : List Plug) (op : String) (args : List String) : String :=
       | .ok v => "ok " ++ Hex.enc (canonU ms v)
       | .error e => "err " ++ e.name
     | none => "err BadArg"
+  | "uvalid", _ :: x :: ts =>
+    -- the value in a tree where every leafref target leaf-list holds the target values its type accepts: `lyd_validate_module`
+    match Hex.dec x, ts.mapM Hex.dec with
+    | some s, some tvs =>
+      match storeU ms Generated.LYD_HINT_DATA s with
+      | .error _ => "err Reject"
+      | .ok _ =>
+        -- canonical values of the instances member `m` can point to: the target values `m`'s own (= the target's) store accepts
+        let res (m : Plug) : List Bytes := tvs.filterMap fun tv =>
+          match m.store Generated.LYD_HINT_DATA tv with
+          | .ok w => some (m.canon w)
+          | .error _ => none
+        match findTypeVM res ms 0 Generated.LYD_HINT_DATA s with
+        | some u => "ok " ++ Hex.enc (canonU ms u) ++ " " ++ toString u.idx
+        | none => "err NoMember"
+    | _, _ => "err BadArg"
   | "idfmt", [_, fmt, x] =>
     -- `ms` was built for the prefix format `fmt`; `lyb`: a union value in LYB form (member index + member value)
     match Hex.dec x with
@@ -288,6 +310,26 @@ def handle (op : String) (args : List String) : String :=
       match parseUTy fmt (d.length + 1) d with
       | some u => handleUnion u.flatten op args
       | none => "err BadArg"
+    else if d.startsWith "lref(" && d.endsWith ")" then
+      match parseMTy (String.ofList ((d.toList.drop 5).dropLast)) with
+      | some m => handleMember m op args
+      | none => "err BadArg"
+    else if d.startsWith "lrefr(" && d.endsWith ")" then
+      -- a leafref with require-instance alone: the value ops are the target's; `uvalid`: the value must be among the targets
+      match parseMTy (String.ofList ((d.toList.drop 6).dropLast)), op, args with
+      | some m, "uvalid", _ :: x :: ts =>
+        match Hex.dec x, ts.mapM Hex.dec with
+        | some s, some tvs =>
+          match m.store Generated.LYD_HINT_DATA s with
+          | .error _ => "err Reject"
+          | .ok v =>
+            let cans := tvs.filterMap fun tv => match m.store Generated.LYD_HINT_DATA tv with
+              | .ok w => some (m.canon w)
+              | .error _ => none
+            if cans.contains (m.canon v) then "ok " ++ Hex.enc (m.canon v) ++ " 0" else "err NoTarget"
+        | _, _ => "err BadArg"
+      | some m, _, _ => handleMember m op args
+      | none, _, _ => "err BadArg"
     else if d.startsWith "pstr:" then
       match parseMTy d with
       | some m => handleMember m op args
